@@ -22,7 +22,7 @@ ASSUMPTIONS = [
 NSHARDS = {"quick": 32, "thorough": 64}
 BUDGET_S = {"quick": 240, "thorough": 2400}
 MIN_HITS = {
-    'quick': {"variant": 6799, "expect_accept": 2199, "expect_reject": 4599, "mutation_still_valid": 2007, "family_p2pk": 45, "family_p2pkh": 49, "family_multisig": 98, "lib_signed": 83, "with_separator": 131, "reversed_digest": 192, "legacy_flag": 96, "forkid_flag": 96},
+    'quick': {"variant": 6849, "expect_accept": 2226, "expect_reject": 4559, "mutation_still_valid": 2034, "family_p2pk": 48, "family_p2pkh": 47, "family_multisig": 96, "lib_signed": 80, "with_separator": 131, "reversed_digest": 192, "legacy_flag": 96, "forkid_flag": 96},
     'thorough': {"variant": 307653, "expect_accept": 110476, "expect_reject": 197176, "mutation_still_valid": 100876, "family_multisig": 4819, "lib_signed": 3933, "with_separator": 6889, "reversed_digest": 9600},
 }
 FLAGS = [0x01, 0x02, 0x03, 0x81, 0x82, 0x83, 0x41, 0x42, 0x43, 0xC1, 0xC2, 0xC3]
